@@ -4,11 +4,11 @@ PLAN = {
     'C01': dict(level='proof', engines=[]),
     'C02': dict(level='proof', engines=[]),
     'C03': dict(level='proof', engines=['bundles']),
-    'C04': dict(level='proof', engines=[]),
+    'C04': dict(level='proof', engines=['keynative']),
     'C06': dict(level='proof', engines=[]),
     'C07': dict(level='proof', engines=[]),
     'C08': dict(level='proof', engines=[]),
-    'C09': dict(level='proof', engines=['chordnative']),
+    'C09': dict(level='proof', engines=['chordnative', 'keynative']),
     'C10': dict(level='proof', engines=['chordre']),
     'C11': dict(level='proof', engines=['chordnative']),
     'C14': dict(level='proof', engines=[]),
